@@ -31,6 +31,7 @@ from .core import f2h, h2f, close
 
 GROUPS = ["Steel", "SteelCast", "Al_wrought"]
 PA3 = (0.1, 0.5, 0.9)
+DEFAULT_NBINS = 200  # documented default of the number of P_RAJ classes
 RTOL = 1e-9          # chained pow / log / exp / Newton steps of ~1e-10 each
 TOL_ORACLE = 1e-9    # same recorded table, batch vs alone: no look-up table noise involved
 
@@ -161,8 +162,9 @@ def impl_run_line(dc, ap, k, npts, pas):
         " ".join(f2h(v) for v in nmax)])
 
 
-def model_and_impl(dc, ap, group, npts, points=None, pas=PA3):
-    """protocol line + implementation line for every point (or the given ones) of an evaluated pair of objects"""
+def model_and_impl(dc, ap, group, npts, points=None, pas=PA3, nbins=None):
+    """protocol line + implementation line for every point (or the given ones) of an evaluated pair of objects;
+    nbins: the number of P_RAJ classes the MODEL uses (default: what the implementation's parameters say)"""
     from . import c10
     betas = [c10.beta_of(pa) for pa in pas]
     col = dc.collective
@@ -172,7 +174,7 @@ def model_and_impl(dc, ap, group, npts, points=None, pas=PA3):
     for k in (range(npts) if points is None else points):
         ck = col[col.index.get_level_values("assessment_point_index") == k]
         ml.append(run_line(group, float(ap.R_m), float(ap.K_prime), float(ap.n_prime), _vec(ap.P_RAJ_Z, npts)[k], _vec(ap.P_RAJ_D_0, npts)[k],
-                           int(ap.n_bins), jmin, betas, ck))
+                           int(ap.n_bins) if nbins is None else int(nbins), jmin, betas, ck))
         il.append(impl_run_line(dc, ap, k, npts, pas))
     return ml, il
 
@@ -312,7 +314,7 @@ class Praj:
 
     def __init__(self):
         self.stats = {"sub": {}, "cases_hit": {}, "points": 0, "hystereses": 0, "newton_failures": 0, "infinite": 0, "finite": 0,
-                      "early": 0, "xbar_inf": 0, "q_at_grid_end": 0, "P_above_klass_max": 0, "edge_values": 0, "ascending_grid": 0, "near_ties_skipped": 0}
+                      "early": 0, "xbar_inf": 0, "q_at_grid_end": 0, "P_above_klass_max": 0, "edge_values": 0, "ascending_grid": 0, "near_ties_skipped": 0, "nan_lifetime": 0, "lost_to_top_edge_rounding": 0}
         self._cache = {}
 
     def _count(self, d, k):
@@ -330,8 +332,11 @@ class Praj:
                 par["PA"] = 0.5
             nn = rng.randint(1, 3)
             L = c10.gen_loads(rng, par["Rm"], rng.randint(4, 9 if quick else 12), extreme=rng.random() < 0.15)
-            par["nbinsJ"] = rng.choice([200, 200, 50, 17])
-            cases.append({"kind": "praj", "sub": "real", "par": par, "L": L, "cs": c10.gen_cs(rng, nn), "G": c10.gen_G(rng, nn), "k": rng.randrange(nn)})
+            par["nbinsJ"] = rng.choice([None, 200, 50, 17])       # None: the documented default (200) is left to the code
+            c = {"kind": "praj", "sub": "real", "par": par, "L": L, "cs": c10.gen_cs(rng, nn), "G": c10.gen_G(rng, nn), "k": rng.randrange(nn)}
+            if nn > 1:
+                c["lay"] = c10.gen_lay(rng, nn)          # node labels / row order / load_step labels of the batch
+            cases.append(c)
         for _ in range(n_synth):
             g, Rm, E, K, n = gen_mat(rng)
             npts = rng.choice([1, 1, 2, 3])
@@ -358,11 +363,19 @@ class Praj:
         return json.dumps(case, sort_keys=True)
 
     def _eval_nocache(self, case):
+        """the real code is evaluated ahead of the oracle (the model needs the recorded tables): an exception of the
+        implementation is carried into the case (c10.exc_verdict) instead of ending the run as an infrastructure error"""
+        from . import c10
         try:
             return getattr(self, "_eval_" + case["sub"])(case)
         except NewtonFailure:
             self.stats["newton_failures"] += 1
             return {"ml": [], "il": [], "oracle": None, "trivial": True}
+        except c10.NodeOrderDefect as e:
+            return {"ml": [], "il": [], "oracle": (c10.node_order_desc(case, str(e)), "batch-node-order"), "trivial": True}
+        except Exception as e:
+            v = c10.exc_verdict(e)
+            return {"ml": [], "il": [f"EXC {type(e).__name__}: {str(e)[:200]}"], "oracle": v, "trivial": True}
 
     def _eval(self, case):
         key = self._key(case)
@@ -418,13 +431,26 @@ class Praj:
             return (f"P_RAJ is not zero although the crack stays closed (case 1); {ctx}", "praj-closed-nonzero")
         kmaxs, pdes = _vec(ap.P_RAJ_klass_max, npts), _vec(ap.P_RAJ_D_e, npts)
         es_all = np.asarray(dc._binned_P_RAJ, dtype=float)
+        pending = None          # a finding that is reported only if no other clause fails on this case
         for k in range(npts):
             ck = col[col.index.get_level_values("assessment_point_index") == k]
             P2 = ck[ck.run_index == 2]["P_RAJ"].values
-            above = int(np.sum(P2 > kmaxs[k]))
+            es_k = es_all[:, k] if es_all.ndim == 2 else es_all
+            top = float(es_k[0])                       # the first class edge of the code's grid: np.logspace(log10(klass_max), ...)[0]
+            above = int(np.sum(P2 > max(kmaxs[k], top)))
             self.stats["P_above_klass_max"] += above
+            # 10**log10(klass_max) can be one ulp BELOW klass_max: a hysteresis with P_RAJ = klass_max (crack fully open over the
+            # whole range +-max|S|; seen only for loads of 4-6 R_m, where the point fails within the two recorded passes and the
+            # class counts are not used) then lies above the grid and is counted in no class: finding praj-top-edge-rounding
+            lost = int(np.sum((P2 > top) & (P2 <= kmaxs[k])))
+            if lost and kmaxs[k] - top <= 4 * np.spacing(kmaxs[k]):
+                self.stats["lost_to_top_edge_rounding"] = self.stats.get("lost_to_top_edge_rounding", 0) + lost
+                pending = (f"point {k}: {lost} second-run hysteresis with P_RAJ = {float(np.max(P2))!r} <= P_RAJ_klass_max = {kmaxs[k]!r} is counted in no class: the first "
+                           f"class edge np.logspace(log10(klass_max), ...)[0] = {top!r} is one ulp below klass_max; {ctx}", "praj-top-edge-rounding")
+            else:
+                lost = 0
             counted = float(np.sum(np.asarray(dc._binned_h)[k]) + np.asarray(dc._n_not_in_bin).reshape(-1)[k])
-            if kmaxs[k] > pdes[k] and counted != len(P2) - above:
+            if kmaxs[k] > pdes[k] and counted != len(P2) - above - lost:
                 return (f"point {k}: {len(P2)} second-run hystereses ({above} above klass_max) but the classes hold {counted}; {ctx}", "praj-class-partition")
             if kmaxs[k] <= pdes[k]:
                 self.stats["ascending_grid"] += 1
@@ -474,9 +500,17 @@ class Praj:
             n10, n50, n90 = (np.asarray(nmaxf(pa), dtype=float).reshape(-1) for pa in PA3)
         life = np.asarray(dc.lifetime_n_cycles, dtype=float).reshape(-1)
         for k in range(len(life)):
-            if life[k] >= 0 and not (n10[k] <= n50[k] <= n90[k]):
+            if life[k] != life[k]:
+                # NaN lifetime (no second-run hysteresis in or below the class grid: H_0 = 0, the code's 0 * inf): there is no
+                # ordering to speak of; counted
+                self.stats["nan_lifetime"] = self.stats.get("nan_lifetime", 0) + 1
+                continue
+            if life[k] < 0:
+                # hypothesis `0 <= lifetime` of PRAJ.N10_le_N50_le_N90_PRAJ_partial: never seen on the real code; reported if it ever is
+                return (f"P_RAJ lifetime of point {k} is negative ({life[k]!r}); {ctx}", "praj-negative-lifetime")
+            if not (n10[k] <= n50[k] <= n90[k]):
                 return (f"P_RAJ: N_10={n10[k]!r}, N_50={n50[k]!r}, N_90={n90[k]!r} not ordered, point {k}; {ctx}", "n105090-P_RAJ")
-        return None
+        return pending
 
     def _ap_single(self, ap, k, npts):
         a = pd.Series({key: ap[key] for key in ap.index})
@@ -490,7 +524,7 @@ class Praj:
         par, L, cs, Gs, k = case["par"], case["L"], case["cs"], case["G"], case["k"]
         nn = len(cs)
         try:
-            rb = c10.assess(par, L, cs, Gs, list(range(nn)), ram=False, raj=True, as_batch=nn > 1)
+            rb = c10.assess_batch(case, par, L, cs, Gs, list(range(nn)), ram=False, raj=True, as_batch=nn > 1)
             rs = c10.assess(par, L, cs, Gs, [k], ram=False, raj=True, as_batch=False) if nn > 1 else None
         except c10.SolverFailure:
             return {"ml": [], "il": [], "oracle": None, "trivial": True}
@@ -505,17 +539,31 @@ class Praj:
         ml = [" ".join(["praj.par", par["group"], f2h(par["Rm"]), f2h(_vec(aps.K_RP, nn)[k]), f2h(float(aps.beta)), "1" if is05 else "0",
                         f2h(par["Aref"]), f2h(par["Asigma"]), f2h(Gs[k])])]
         il = [" ".join(f2h(v) for v in (float(aps.gamma_M_RAJ), _vec(aps.f_RAJ, nn)[k], _vec(aps.P_RAJ_Z, nn)[k], _vec(aps.P_RAJ_D_0, nn)[k]))]
-        m2, i2 = model_and_impl(dcb, apb, par["group"], nn)
+        # the model is told the number of classes of the CASE; when the case leaves it to the code that is the documented
+        # default of perform_fkm_nonlinear_assessment ("n_bins: int, optional (default: 200)")
+        nb_doc = par.get("nbinsJ") or DEFAULT_NBINS
+        m2, i2 = model_and_impl(dcb, apb, par["group"], nn, nbins=nb_doc)
         ml += m2
         il += i2
         if rs is not None:
             dcs = rs["P_RAJ_damage_calculator"]
-            m3, i3 = model_and_impl(dcs, dcs._assessment_parameters, par["group"], 1)
+            m3, i3 = model_and_impl(dcs, dcs._assessment_parameters, par["group"], 1, nbins=nb_doc)
             ml += m3
             il += i3
         self._note(dcb, apb, nn)
-        ctx = f"real HCM table: group={par['group']} R_m={par['Rm']} K_p={par['Kp']} P_A={par['PA']} n_bins={par.get('nbinsJ')} loads={L} ratios={[c / cs[0] for c in cs]} G={Gs}"
+        ctx = f"real HCM table: group={par['group']} R_m={par['Rm']} K_p={par['Kp']} P_A={par['PA']} n_bins={par.get('nbinsJ')} loads={L} ratios={[c / cs[0] for c in cs]} G={Gs} layout={case.get('lay')}"
         orc = self._oracle_objects(dcb, apb, nn, ctx, rb["P_RAJ_recorder_collective"])
+        if orc is None and par.get("nbinsJ") is None:
+            # the documented default on the real code: the same point with n_bins = 200 spelled out
+            try:
+                r2 = c10.assess(dict(par, nbinsJ=DEFAULT_NBINS), L, cs, Gs, [k], ram=False, raj=True, as_batch=False)
+            except c10.SolverFailure:
+                r2 = None
+            a = _vec((rs if rs is not None else rb)["P_RAJ_lifetime_n_cycles"], 1)[0]
+            b = _vec(r2["P_RAJ_lifetime_n_cycles"], 1)[0] if r2 is not None else a
+            if not (a == b or close(a, b, rtol=1e-12)):
+                orc = (f"P_RAJ lifetime of point {k} with the number of classes left to the code is {a!r}, with the documented default n_bins = {DEFAULT_NBINS} "
+                       f"spelled out {b!r}; {ctx}", "praj-default-classes")
         return {"ml": ml, "il": il, "oracle": orc, "trivial": False}
 
     def _eval_synth(self, case):
